@@ -11536,6 +11536,11 @@ int cg_boco_normal_write(int fn, int B, int Z, int BC, const int * NormalIndex,
     if (NormalListFlag && npnts) {
         cgns_array *normal;
 
+        if (NormalDataType != CGNS_ENUMV(RealSingle) &&
+            NormalDataType != CGNS_ENUMV(RealDouble)) {
+            cgi_error("Invalid datatype for InwardNormalList:  %d", NormalDataType);
+            return CG_ERROR;
+        }
         if (boco->normal) {
             if (cg->mode==CG_MODE_WRITE) {
                 cgi_error("InwardNormalList is already defined under BC_t '%s'",
@@ -18789,6 +18794,12 @@ int cg_exponents_write(CGNS_ENUMT(DataType_t) DataType, const void * exponents)
      /* verify input */
     if (cgi_check_mode(cg->filename, cg->mode, CG_MODE_WRITE)) return CG_ERROR;
 
+    if (DataType != CGNS_ENUMV(RealSingle) &&
+        DataType != CGNS_ENUMV(RealDouble)) {
+        cgi_error("Invalid datatype for exponents:  %d", DataType);
+        return CG_ERROR;
+    }
+
     exponent = cgi_exponent_address(CG_MODE_WRITE, &ier);
     if (exponent==0) return ier;
 
@@ -18921,6 +18932,12 @@ int cg_expfull_write(CGNS_ENUMT(DataType_t) DataType, const void * exponents)
 
      /* verify input */
     if (cgi_check_mode(cg->filename, cg->mode, CG_MODE_WRITE)) return CG_ERROR;
+
+    if (DataType != CGNS_ENUMV(RealSingle) &&
+        DataType != CGNS_ENUMV(RealDouble)) {
+        cgi_error("Invalid datatype for exponents:  %d", DataType);
+        return CG_ERROR;
+    }
 
     exponent = cgi_exponent_address(CG_MODE_WRITE, &ier);
     if (exponent==0) return ier;
@@ -19056,6 +19073,12 @@ int cg_conversion_write(CGNS_ENUMT(DataType_t) DataType,
 
      /* verify input */
     if (cgi_check_mode(cg->filename, cg->mode, CG_MODE_WRITE)) return CG_ERROR;
+
+    if (DataType != CGNS_ENUMV(RealSingle) &&
+        DataType != CGNS_ENUMV(RealDouble)) {
+        cgi_error("Invalid datatype for conversion factors:  %d", DataType);
+        return CG_ERROR;
+    }
 
     conversion = cgi_conversion_address(CG_MODE_WRITE, &ier);
     if (conversion==0) return ier;
@@ -19242,8 +19265,10 @@ int cg_gridlocation_write(CGNS_ENUMT(GridLocation_t) GridLocation)
      /* verify input */
     if (cgi_check_mode(cg->filename, cg->mode, CG_MODE_WRITE)) return CG_ERROR;
 
-    location = cgi_location_address(CG_MODE_WRITE, &ier);
-    if (location==0) return ier;
+    if (posit == 0) {
+        cgi_error("No current position set by cg_goto\n");
+        return CG_ERROR;
+    }
     if (posit_base) {
         cell_dim = cg->base[posit_base-1].cell_dim;
         if (posit_zone)
@@ -19298,6 +19323,10 @@ int cg_gridlocation_write(CGNS_ENUMT(GridLocation_t) GridLocation)
         cgi_error("GridLocation %d not valid for %s", GridLocation, posit->label);
         return CG_ERROR;
     }
+
+     /* the input is valid: an existing GridLocation_t may now be replaced */
+    location = cgi_location_address(CG_MODE_WRITE, &ier);
+    if (location==0) return ier;
 
     (*location) = GridLocation;
 
@@ -20237,8 +20266,9 @@ int cg_bcdataset_write(const char *name, CGNS_ENUMT(BCType_t) BCType,
         return CG_ERROR;
     }
 
-    if (INVALID_ENUM(BCDataType,NofValidBCDataTypes)) {
-        cgi_error("BCDataType %d not valid",BCDataType);
+    if (BCDataType != CGNS_ENUMV(Dirichlet) &&
+        BCDataType != CGNS_ENUMV(Neumann)) {
+        cgi_error("BCDataType is not Dirichlet or Neumann");
         return CG_ERROR;
     }
 
@@ -20311,15 +20341,11 @@ int cg_bcdataset_write(const char *name, CGNS_ENUMT(BCType_t) BCType,
         dataset->dirichlet = CGNS_NEW(cgns_bcdata,1);
         strcpy(dataset->dirichlet->name, "DirichletData");
         bcdata = dataset->dirichlet;
-    } else if(BCDataType == CGNS_ENUMV(Neumann)){
+    } else { /* Neumann: BCDataType was tested above */
         if ( !dataset->neumann)
         dataset->neumann = CGNS_NEW(cgns_bcdata,1);
         strcpy(dataset->neumann->name, "NeumannData");
         bcdata = dataset->neumann;
-    }
-    else {
-        cgi_error("BCDataType is not Dirichlet or Neumann");
-    return CG_ERROR;
     }
 
     if (cgi_new_node(dataset->id, bcdata->name, "BCData_t", &bcdata->id,
